@@ -236,12 +236,21 @@ def run(C, R):
                 t1 = m['locals'][1]['ty'] if m['arg_count'] >= 1 else {}
                 if not (t1.get('k') == 'ref' and t1.get('ty', {}).get('path') == sp):
                     continue
+                from rl import lift_private_callers as _lift
+                cands_ = set()
                 for c, _ln in CG.callers_of(m['path']):
+                    cf_ = F.fn(c) or {}
+                    if cf_.get('in_trait') and not cf_.get('reachable'):
+                        # a provided method of a private trait (generic over Self): judged in the callers of the impls
+                        cands_.update(_lift(F, CG, c))
+                    else:
+                        cands_.add(c)
+                for c in sorted(cands_):
                     if c in own:
                         continue
                     for path in E.run(c):
                         for e in path.events:
-                            if e['k'] == 'call' and e['callee'] == m['path'] and e['fn'] == c:
+                            if e['k'] == 'call' and e['callee'] == m['path'] and e.get('fn') not in own:
                                 nrecv += 1
                                 a0 = e['args'][0]
                                 # (in a function judged as a transition the locked state is addressed as `self`)
@@ -659,52 +668,69 @@ def _on_handle(F, roles, fn, t):
     return False
 
 
+def _const_item_str(F, a):
+    """the string literal a `const MSG: &str = ".."` item stands for, from the MIR of its initialiser"""
+    if F is None or not a.get('const_item'):
+        return None
+    for c in F.raw.get('consts') or []:
+        if c['path'] == a['const_item']:
+            for b in c.get('blocks') or []:
+                for s_ in b['stmts']:
+                    u = (s_.get('rv') or {}).get('use') or {}
+                    if isinstance(u.get('const'), str) and u['const'].startswith('"'):
+                        return u['const']
+    return None
+
+
+def _resolve_str(F, fn, op, depth=0):
+    """what string a `&str` operand is: a literal, a `const` item, or - through copies and reborrows - a parameter of
+    the function (returned as ('param', index)); None if unknown"""
+    if depth > 6 or not isinstance(op, dict):
+        return None
+    if 'const' in op:
+        if isinstance(op['const'], str) and op['const'].startswith('"'):
+            return op['const']
+        return _const_item_str(F, op)
+    pl = op.get('move') or op.get('copy')
+    if not pl:
+        return None
+    if pl['p'] not in ([], ['*']):
+        return None
+    l = pl['l']
+    if 1 <= l <= fn['arg_count']:
+        return ('param', l)
+    r = _const_str_of_local(fn, l)
+    if r:
+        return r
+    for b3 in fn['blocks']:
+        for s3 in b3['stmts']:
+            if s3['k'] == 'assign' and s3['place']['l'] == l and not s3['place']['p']:
+                rv = s3['rv']
+                if 'use' in rv:
+                    return _resolve_str(F, fn, rv['use'], depth + 1)
+                if isinstance(rv.get('ref'), dict) and rv['ref'].get('p') in ([], ['*']):
+                    return _resolve_str(F, fn, {'copy': {'l': rv['ref']['l'], 'p': []}}, depth + 1)
+    return None
+
+
 def _expect_msg(fn, b, F=None):
     t = b['term']
     for a in t['args']:
-        if 'const' in a and isinstance(a['const'], str) and a['const'].startswith('"'):
-            return a['const']
-        pl = a.get('move') or a.get('copy')
-        if pl and not pl['p']:
-            r = _const_str_of_local(fn, pl['l'])
-            if r:
-                return r
+        r = _resolve_str(F, fn, a)
+        if isinstance(r, str):
+            return r
+        if isinstance(r, tuple) and F is not None and 'str' in (fn['locals'][r[1]]['ty'].get('str') or ''):
             # the message is a parameter of a private helper: the messages its callers pass
-            src_l = pl['l']
-            for _hop in range(3):
-                if 1 <= src_l <= fn['arg_count']:
-                    break
-                nxt = None
-                for b3 in fn['blocks']:
-                    for s3 in b3['stmts']:
-                        if s3['k'] == 'assign' and s3['place']['l'] == src_l and not s3['place']['p']:
-                            u3 = (s3['rv'].get('use') or {})
-                            p3 = u3.get('copy') or u3.get('move')
-                            if p3 and not p3['p']:
-                                nxt = p3['l']
-                            r3 = s3['rv'].get('ref')
-                            if isinstance(r3, dict) and r3.get('p') == ['*']:
-                                nxt = r3['l']       # a reborrow `&*param`
-                if nxt is None:
-                    break
-                src_l = nxt
-            pl = {'l': src_l, 'p': []}
-            if F is not None and 1 <= pl['l'] <= fn['arg_count'] and 'str' in (fn['locals'][pl['l']]['ty'].get('str') or ''):
-                msgs = []
-                for g in F.raw['fns']:
-                    for b2 in g['blocks']:
-                        t2 = b2['term']
-                        if t2['k'] == 'call' and 'fn' in t2['func'] and len(t2['args']) >= pl['l']:
-                            ci2 = t2['func']['fn']
-                            rp = (ci2.get('resolved') or {}).get('path') or ci2['path']
-                            if rp == fn['path'] or rp.startswith(fn['path'] + '::<'):
-                                a2 = t2['args'][pl['l'] - 1]
-                                if 'const' in a2 and isinstance(a2['const'], str) and a2['const'].startswith('"'):
-                                    msgs.append(a2['const'])
-                                else:
-                                    p2 = a2.get('move') or a2.get('copy')
-                                    r2 = _const_str_of_local(g, p2['l']) if p2 and not p2['p'] else None
-                                    msgs.append(r2 or '?')
-                if msgs and all(m_ != '?' for m_ in msgs):
-                    return ' | '.join(sorted(set(msgs)))
+            msgs = []
+            for g in F.raw['fns']:
+                for b2 in g['blocks']:
+                    t2 = b2['term']
+                    if t2['k'] == 'call' and 'fn' in t2['func'] and len(t2['args']) >= r[1]:
+                        ci2 = t2['func']['fn']
+                        rp = (ci2.get('resolved') or {}).get('path') or ci2['path']
+                        if rp == fn['path'] or rp.startswith(fn['path'] + '::<'):
+                            r2 = _resolve_str(F, g, t2['args'][r[1] - 1])
+                            msgs.append(r2 if isinstance(r2, str) else '?')
+            if msgs and all(m_ != '?' for m_ in msgs):
+                return ' | '.join(sorted(set(msgs)))
     return ''
